@@ -1281,6 +1281,30 @@ M("c08-free-mailbox-pops-absent-key", ["C08", "C17"], S,
             self._mailboxes.pop(mailbox_id)''',
   ["R08.answer", "R17.escape"], "pop of a key that is known to be absent raises KeyError")
 
+
+M("c08-close-lookup-by-app-only", ["C08", "C15"], S,
+  '''        row = db.execute("SELECT * FROM `mailboxes`"
+                         " WHERE `app_id`=? AND `id`=?",
+                         (self._app_id, self._mailbox_id)).fetchone()
+        if not row:''',
+  '''        row = db.execute("SELECT * FROM `mailboxes`"
+                         " WHERE `app_id`=?",
+                         (self._app_id,)).fetchone()
+        if not row:''',
+  ["R08.lookup", "R15.lookup"], "the row close works on is the first mailbox of the app")
+M("c07-release-lookup-by-nameplate-only", ["C07"], S,
+  '''        row = db.execute("SELECT * FROM `nameplate_sides`"
+                         " WHERE `nameplates_id`=? AND `side`=?",
+                         (npid, side)).fetchone()
+        if not row:
+            return''',
+  '''        row = db.execute("SELECT * FROM `nameplate_sides`"
+                         " WHERE `nameplates_id`=?",
+                         (npid,)).fetchone()
+        if not row:
+            return''',
+  ["R07.lookup"], "the claim row release looks at is any side's")
+
 EXTRA = {
     "b-old-mailboxes-list": [
         (S, '''            else:
